@@ -1017,6 +1017,26 @@ MICRO_ALPHA = ["a", "b1", "_", " ", "(", ")", "()", "%", " % ", "call ", "if", "
                "CALL", "If ", "=>", "'", '"', "''", "+", "1", ":", "go to (", "goto(", "1,2", "end", " block",
                "associate (", "format (", "10 ", "integer", "type", " is", "::", "real", "use ", "data", "intent(in)",
                "class", " default", "double  precision", "dimension", "/", "bind(c)", "function", " ::", "lbl:"]
+STARTERS = {
+    "subcall": ["call ", "CALL  ", "if (a) call ", "if(x)call ", "if (f()) call ", "call a%", "call a % b()%", "If (a) (b) call "],
+    "callre": ["a%b(", "a () % c(", "f (", "x%y%z(", "a%b()%c", " q % r (", "a%()"],
+    "FORMAT_RE": ["10 format (", "100  FORMAT (", "10 format(", "format (", "10 format ()", "1\tformat\t(a)"],
+    "ARITH_GOTO_RE": ["go to (", "goto (1,2", "GO  TO (10, 20)", "x goto(1)", "goto ( 1 , 2 ) ", "go to ()"],
+    "BLOCK_RE": ["block", "lbl: block", "lbl : BLOCK ", "block data", " block", "a b: block", ": block"],
+    "ASSOCIATE_RE": ["associate (", "lbl: associate(", "ASSOCIATE (", "associate ()", "associate (a => b) ", "1: associate ("],
+    "END_RE": ["end", "end ", "END block", "end block data", "endassociate", "end associate x", "end subroutine",
+               "end function f", "end if", "endtype", "end module", "end block\tdata", "endblock data x", "end submodule s",
+               "end procedure", "end interface", "end enum", "end program p"],
+    "VARIABLE_RE": ["integer", "real", "double precision", "doubleprecision", "type", "type is", "class default", "class is",
+                    "class(", "character", "logical", "complex", "procedure", "enumerator", "double complex", "type  isx",
+                    "class  defaults", "TYPE(", "Real*"],
+    "ATTRIB_RE": ["asynchronous", "allocatable", "data", "dimension", "external", "optional", "parameter", "pointer",
+                  "private", "protected", "public", "save", "target", "value", "volatile", "intent(in)", "intent ( in )",
+                  "intent(in out)", "bind(c)", "bind (c, name=(x))", "BIND(C) ::", "intent()", "data(", "save::", "save ::"],
+    "USE_RE": ["use m", "use :: m", "use, intrinsic :: iso", "use,non_intrinsic::m", "use m, only: x", "use  m ,", "usem",
+               "use ::", "use, intrinsic m", "use , non_intrinsic :: m", "use m x", "USE M"],
+}
+TAILS = ["", " ", "x", " x", "(", " (", "::", " :: ", ",", "*", "/", "=", ")", " y)", "1", "_", ":"]
 RX_NAMES = ["FORMAT_RE", "ARITH_GOTO_RE", "BLOCK_RE", "ASSOCIATE_RE", "END_RE", "VARIABLE_RE", "ATTRIB_RE", "USE_RE"]
 
 
@@ -1045,6 +1065,10 @@ def micro_stream(impl: Impl, drv: Driver, rng, n, rep: Report):
     for k in range(n):
         s = "".join(rng.choice(MICRO_ALPHA) for _ in range(rng.randint(0, 9)))
         which = k % 6
+        rxname = rng.choice(RX_NAMES)
+        st = {1: "callre", 2: "subcall", 5: rxname}.get(which)
+        if st and rng.random() < 0.7:
+            s = rng.choice(STARTERS[st]).replace("\\t", "\t") + rng.choice(TAILS) + (s if rng.random() < 0.5 else rng.choice(TAILS))
         if which == 0:
             d = rng.randint(0, 3)
             reqs.append(["c08.strip", str(d), s]); exp.append(["ok"] + U.strip_paren(s, d))
@@ -1058,7 +1082,7 @@ def micro_stream(impl: Impl, drv: Driver, rng, n, rep: Report):
         elif which == 4:
             reqs.append(["c08.mask", s]); exp.append(["ok", real_mask(sf, s)])
         else:
-            name = rng.choice(RX_NAMES)
+            name = rxname
             s2 = s.strip()
             reqs.append(["c08.rx", name, s2])
             if name == "ARITH_GOTO_RE":
